@@ -18,7 +18,9 @@ EXPLANATION = (
     'kinds is a value of the mapping - mapping[None] on the inactive side of the originating-node test, the '
     'entry of the single selected source option otherwise; an existence mapping takes the first existing source '
     'node in declaration order (break right after the assignment) and mapping[None] otherwise; (A12) every '
-    'mapping class implements resolve; (A4) the selected source option is read over DERIVES edges only.')
+    'mapping class implements resolve; (A4) the selected source option is read over DERIVES edges only; (A10d) no iteration over a mapping that may '
+    'hold the None (inactive) entry dereferences its keys without excluding None (finding F16, repaired); (A6u) '
+    'existence of a source node is decided against all nodes of the source architecture.')
 
 
 def resolve_shape(ctx, rule='A5'):
@@ -243,6 +245,8 @@ def check(ctx):
     init_shape(ctx)
     option_provenance(ctx)
     existence_universe(ctx)
+    from ..rules import shapes
+    shapes.check_none_key_deref(ctx, [f for f in ctx.prog.all_functions() if f.module.name.startswith('adsg_core.graph.sup')])
     abstract_complete(ctx)
     edges.check_walks(ctx, categories={'derivation'}, anchors=[f'{SUP}:SupSelChoiceOptionMapping.resolve'])
     ctx.floor('A5', 9, 'resolve / initialise guards')
@@ -252,6 +256,8 @@ def check(ctx):
 from ..selftest import V  # noqa: E402
 
 VARIANTS = [
+    V('none-key-dereferenced', 'graph/sup/dsg.py',
+      [("for node, sup_node in mapping.items() if node is not None}", "for node, sup_node in mapping.items()}")], key='A10d'),
     V('non-final-source-accepted', 'graph/sup/dsg.py',
       [("        if not src_dsg.final or not src_dsg.feasible:", "        if not src_dsg.feasible:")], key='source-final-required'),
     V('partial-result-returned', 'graph/sup/dsg.py',
